@@ -88,6 +88,14 @@ Definition spec_parent (t : table) (pid s0 : Z) : option (Z * Z) :=
                    | None => None
                    end
        end.
+(* the same when the processes in [gone] vanish while parent() looks at them: a vanished
+   parent is no parent *)
+Definition spec_parent_v (t : table) (gone : list Z) (pid s0 : Z) : option (Z * Z) :=
+  if is_root_b t pid then None
+  else match lookup t pid with
+       | None => None
+       | Some e => if memz (kp_ppid e) gone then None else spec_parent t pid s0
+       end.
 Definition spec_parent_of (t : table) (pid : Z) : option Z :=
   match lookup t pid with
   | Some e => option_map fst (spec_parent t pid (kp_start e))
@@ -115,6 +123,24 @@ Fixpoint spec_parents (t : table) (n : nat) (p : Z) : option (list Z) :=
               | O => None      (* the chain does not end within n steps: it is cyclic *)
               | S m => option_map (cons q) (spec_parents t m q)
               end
+  end.
+
+(* parents() while processes vanish: a process in [gone] vanished before it could be linked
+   (it is no parent); an ancestor in [goneb] vanished after it was linked, the chain ends
+   with it.  Used by the harness as the demanded answer. *)
+Definition spec_parent_of_v (t : table) (gone : list Z) (pid : Z) : option Z :=
+  match lookup t pid with
+  | Some e => option_map fst (spec_parent_v t gone pid (kp_start e))
+  | None => None
+  end.
+Fixpoint spec_parents_v (t : table) (gone goneb : list Z) (n : nat) (p : Z) : option (list Z) :=
+  match spec_parent_of_v t gone p with
+  | None => Some []
+  | Some q => if memz q goneb then Some [q]
+              else match n with
+                   | O => None
+                   | S m => option_map (cons q) (spec_parents_v t gone goneb m q)
+                   end
   end.
 
 (* k-fold parent *)
